@@ -541,6 +541,8 @@ def run(ctx, prop, njobs):
     cats = {"C01": {"roundtrip", "crash"}, "C03": {"memory", "crash"}}.get(prop, {"crash"})
     found = False
     reported = set()
+    corr = [p for p in probs if p.kind == "corr"]
+    notes = old_rule_matches(ctx, probs, sessions) if corr else []
     for p in probs:
         if p.kind != "pred" or p.cat not in cats:
             continue
@@ -551,11 +553,10 @@ def run(ctx, prop, njobs):
         found = True
         j = p.job
         ctx.violation("%s-alaccore-%s-%s" % (prop.lower(), j.fmtname, p.cat),
-                      "# %s violated on the implementation's own transcript (ALAC codec core campaign, predicate '%s')\n# %s, %d channel(s): %s\n# %s\n--- script\n%s"
-                      % (prop, p.cat, j.fmtname, j.ch, j.name, p.text, p.script))
-    corr = [p for p in probs if p.kind == "corr"]
+                      "# %s violated on the implementation's own transcript (ALAC codec core campaign, predicate '%s')\n# %s, %d channel(s): %s\n# %s\n%s--- script\n%s"
+                      % (prop, p.cat, j.fmtname, j.ch, j.name, p.text,
+                         "".join("# correspondence with the Lean codec core also fails (%d differences): %s\n" % (len(corr), n) for n in notes), p.script))
     if corr and not found:
-        notes = old_rule_matches(ctx, probs, sessions)
         p = corr[0]
         ctx.violation("%s-alaccore-correspondence-%s" % (prop.lower(), p.cat),
                       "# correspondence stream 'ALAC codec core (Sf.AlacCore) vs implementation' [%s] no longer agrees: %d differences (dec %d, enc %d, hostile %d)\n"
@@ -565,6 +566,7 @@ def run(ctx, prop, njobs):
         found = True
     note = {k: v for k, v in sorted(stats.items())}
     note["correspondence_differences"] = len(corr)
+    note["old_rule_matches"] = notes
     note["predicate_failures_by_category"] = dict(collections.Counter(p.cat for p in probs if p.kind == "pred"))
     ctx.notes["alaccore"] = note
     if jobs:
